@@ -51,7 +51,8 @@ def must_accept(cfg):
 def check_config(ctx, cfg):
     from amaranth_soc import gpio
     try:
-        p = gpio.Peripheral(pin_count=cfg["pins"], addr_width=cfg["aw"], data_width=cfg["dw"], input_stages=cfg["stages"])
+        kw_ = {} if cfg["stages"] == 2 else {"input_stages": cfg["stages"]}               # two synchroniser stages is the documented default
+        p = gpio.Peripheral(pin_count=cfg["pins"], addr_width=cfg["aw"], data_width=cfg["dw"], **kw_)
     except (ValueError, TypeError) as e:
         raise Refused(str(e))
     regs = csrtarget.regs_from_map(p.bus.memory_map)
